@@ -772,9 +772,12 @@ def detrend_1d(arr: np.ndarray) -> np.ndarray:
     if m == 1:
         return np.zeros(1, dtype=arr.dtype)
 
-    x_sum = m * (m - 1) / 2
+    # Sums of i and i**2 in floating point: m * (m - 1) * (2 * m - 1) wraps
+    # int64 for m >= 1664511
+    mf = float(m)
+    x_sum = mf * (mf - 1) / 2
     y_sum = 0.0
-    x_sq_sum = m * (m - 1) * (2 * m - 1) / 6
+    x_sq_sum = mf * (mf - 1) * (2 * mf - 1) / 6
     x_y_sum = 0.0
 
     for i in range(m):
